@@ -32,7 +32,7 @@ pub fn check(sc: &Scenario, res: &RunResult) -> Vec<Violation> {
                 continue;
             }
             let id = if k.wait_deadlock { "blocks-forever-in-wait" } else { "unbounded-loop" };
-            out.push(v("C02", id, format!("budget exhausted after {} simulated calls / {} ms simulated time", k.seq, k.clock_ns / 1_000_000)));
+            out.push(v("C02", id, format!("budget exhausted after {} simulated calls / {} ms simulated time / {} MiB moved", k.seq, k.clock_ns / 1_000_000, k.bytes_moved >> 20)));
         }
         for p in &k.gt.dev_opens {
             let user = match &sc.workload {
